@@ -197,19 +197,31 @@ def unit(item):
             o["entropy"] = torch.full((B1,), float("nan"))
         check_rollout("greedy", o["actions"][0].tolist(), float(o["log_likelihood"][0]), float(o["reward"][0]), float(o["entropy"][0]))
         # multistart (forced first move contributes zero)
-        n_act = len(tree.masks_seen and next(iter(tree.masks_seen)))
+        # ... decoded next to a DIFFERENT instance of the same shape where one exists (the replicated encoder cache must
+        # stay aligned with the replicated state), otherwise next to copies of itself
+        mates = [td0] * B1
+        if B1 == 1 and not train:
+            shp = {k_: tuple(v.shape[1:]) for k_, v in td0.items()}
+            for jid, jinst in spec.instances(tier, seed):
+                if jid == iid:
+                    continue
+                tdj = spec.td(jinst)
+                if {k_: tuple(v.shape[1:]) for k_, v in tdj.items()} == shp and E.group_sig(tdj) == E.group_sig(td0):
+                    mates = [td0, tdj]
+                    break
+        Bm = len(mates)
         for k in (2, 3) if flags.get("base") else ():
             for dt in ("multistart_greedy", "multistart_sampling"):
-                td = env.reset(torch.cat([td0] * B1, 0))
+                td = env.reset(torch.cat(mates, 0))
                 try:
                     with torch.no_grad(), Seam(tile_rows=True).active():
-                        E._set_bs(env, B1 * k)
+                        E._set_bs(env, Bm * k)
                         o = pol(td, env, phase=phase, decode_type=dt, num_starts=k)
                 except Exception as e:  # noqa: BLE001
                     p.note(f"{pkey} x {skey}: {dt} with num_starts={k} not runnable here ({type(e).__name__}: {str(e)[:80]}) - start-node rules are C12's business")
                     continue
                 first_ok = {h[0] for h in ev}
-                for r in range(0, B1 * k, B1):
+                for r in range(0, Bm * k, Bm):
                     acts = o["actions"][r].tolist()
                     if acts[0] not in first_ok:
                         p.add(infeasible_forced_starts=1)  # start-node feasibility is C12's business
@@ -224,6 +236,75 @@ def unit(item):
                     p.add(evaluations=1)
         p.sample(dict(policy=pkey, env=skey, instance=iid, mode=mode, complete_sequences=len(ev), sampled_sequences=len(sampled)), cap=1)
     return p
+
+
+def unit_stepwise(item):
+    """Step-wise PPO policy of the scheduling models (L2DPolicy4PPO): `act` records the log-probability of the action it
+    samples in td['logprobs'], `evaluate` recomputes log-probability and entropy for the stored (state, action) pairs.
+    In EVERY reachable state of small instances and for EVERY answer of the sampler: the two log-probabilities agree
+    (the PPO ratio starts at exactly one), the recorded probabilities of all samplable actions sum to one, only
+    mask-admitted actions are sampled, and evaluate's entropy is the entropy of the distribution act samples from."""
+    _, skey, tier, seed, temp = item
+    from rl4co.models.zoo.l2d.policy import L2DPolicy4PPO
+
+    spec = ALL_SPECS[skey]
+    p = Partial()
+    cfg = f"l2d4ppo|T={temp}"
+    for iid, inst in pick_instances(spec, tier, seed):
+        env = spec.env(inst)
+        td0 = spec.td(inst)
+        tree = E.explore(env, td0, keep_nodes=True)
+        if tree.capped:
+            p.add(skipped_large=1)
+            continue
+        torch.manual_seed(777)
+        pol = L2DPolicy4PPO(env_name=env.name, embed_dim=16, num_encoder_layers=1, temperature=temp).eval()
+        nodes = [nd for nd in tree.nodes if not nd.done]
+        nodes = [nodes[i] for i in E.pick_indices(len(nodes), 40 if tier == "quick" else 400)]
+        for nd in nodes:
+            td_state, masks, dones = E.run_solo(env, td0, nd.hist) if nd.hist else (env.reset(td0.clone()), None, None)
+            rec = dict(kind="c11_stepwise", spec=skey, instance_id=iid, instance=inst, temp=temp, actions=list(nd.hist))
+            seen = {}
+
+            def run(seam):
+                with torch.no_grad(), seam.active():
+                    t = pol.act(td_state.clone(), env, phase="train")
+                return int(t["action"][0]), float(t["logprobs"][0])
+
+            try:
+                for ch, (a, lp), seam in explore(run, max_dev=None, limit=200, float_patterns=False):
+                    seen[a] = lp
+                    p.add(states=1, transitions=len(ch), evaluations=1)
+            except ExplorationCapped:
+                p.add(caps_hit=1)
+                continue
+            offered = {i for i, m in enumerate(nd.mask) if m}
+            if not set(seen) <= offered:
+                p.violation(sig("l2d4ppo", skey, "actions", f"act|{cfg}"), rec, f"L2DPolicy4PPO.act on {skey} {iid} after {list(nd.hist)} samples {sorted(set(seen) - offered)}, which the mask does not admit")
+                continue
+            tot = sum(math.exp(v) for v in seen.values())
+            if abs(tot - 1.0) > 1e-4:
+                p.violation(sig("l2d4ppo", skey, "normalisation", f"act|{cfg}"), rec, f"L2DPolicy4PPO.act on {skey} {iid} after {list(nd.hist)}: recorded probabilities of all samplable actions {sorted(seen)} sum to {tot:.6f}")
+            ent_ref = -sum(math.exp(v) * v for v in seen.values())
+            for a, lp in sorted(seen.items()):
+                t = td_state.clone()
+                t.set("action", torch.tensor([a]))
+                with torch.no_grad(), Seam().active():
+                    lp_e, _, ent_e = pol.evaluate(t)
+                p.add(traces_validated_against_impl=1, distinct_count=1)
+                if abs(float(lp_e.reshape(-1)[0]) - lp) > TOL:
+                    p.violation(sig("l2d4ppo", skey, "log_likelihood", f"act_vs_evaluate|{cfg}"), rec, f"L2DPolicy4PPO on {skey} {iid} after {list(nd.hist)}: act records log-prob {lp:.6f} for action {a}, evaluate gives {float(lp_e.reshape(-1)[0]):.6f} (PPO ratio {math.exp(float(lp_e.reshape(-1)[0]) - lp):.6f})")
+                    break
+                if abs(float(ent_e.reshape(-1)[0]) - ent_ref) > 1e-4 * (1 + abs(ent_ref)):
+                    p.violation(sig("l2d4ppo", skey, "entropy", f"act_vs_evaluate|{cfg}"), rec, f"L2DPolicy4PPO on {skey} {iid} after {list(nd.hist)}: evaluate reports entropy {float(ent_e.reshape(-1)[0]):.6f}, the distribution act samples from has {ent_ref:.6f}")
+                    break
+            p.outcome(f"l2d4ppo|{skey}|{len(seen)}")
+        p.sample(dict(policy="l2d4ppo", env=skey, instance=iid, temperature=temp, states=len(nodes)), cap=1)
+    return p
+
+
+def dispatch(item):
+    return unit_stepwise(item) if item[0] == "stepwise" else unit(item)
 
 
 def main(tier):
@@ -248,13 +329,28 @@ def main(tier):
             items.append((pkey, skey, flags, tier, seed, 0, False, 2.0))
             if tier == "thorough":
                 items.append((pkey, skey, flags, tier, seed, 1, False, 0.5))
-    rep.merge_all(pmap(unit, items))
     rep.extra["pairs"] = sorted({f"{i[0]}x{i[1]}" for i in items})
+    for skey in ("fjsp:mask", "jssp:mask", "fjsp:wait"):
+        for temp in (1.0, 2.0) if tier == "quick" else (1.0, 2.0, 0.5):
+            if not only or only in f"l2d4ppo|{skey}":
+                items.append(("stepwise", skey, tier, seed, temp))
+    rep.merge_all(pmap(dispatch, items))
+    rep.extra["pairs"] += [f"l2d4ppo(act/evaluate)x{k}" for k in ("fjsp:mask", "jssp:mask", "fjsp:wait")]
     return rep.finish()
 
 
 def replay(rec):
     spec = ALL_SPECS[rec["spec"]]
+    if rec.get("kind") == "c11_stepwise":
+        import mc.checks.c11 as me
+
+        orig = me.pick_instances
+        me.pick_instances = lambda spec_, tier, seed: [(rec["instance_id"], rec["instance"])]
+        try:
+            p = unit_stepwise(("stepwise", rec["spec"], "thorough", 0, rec["temp"]))
+        finally:
+            me.pick_instances = orig
+        return bool(p.violations), "; ".join(v["msg"] for v in p.violations[:3]) or "act and evaluate agree"
     spec._inst_cache[("replay", 0)] = [(rec["instance_id"], rec["instance"])]
     flags = next(f for pk, sk, f in PAIRS if pk == rec["policy"] and sk == rec["spec"])
     import mc.checks.c11 as me
